@@ -1369,3 +1369,11 @@ func (cl *Cluster) Controls() []string {
 	defer cl.mu.Unlock()
 	return append([]string{}, cl.DcpControls...)
 }
+
+// HistoryCopy returns a copy of the vBucket's history.
+func (cl *Cluster) HistoryCopy(vbID uint16) []Item {
+	vb := cl.VBs[vbID]
+	vb.mu.Lock()
+	defer vb.mu.Unlock()
+	return append([]Item{}, vb.Items...)
+}
